@@ -19,7 +19,11 @@ C14(e) ==
           [] e.op = "All"    -> e.ret = <<AllRet(seq, e.p)>>
           [] e.op = "Find"   -> e.ret = FindRet(seq, e.p, kv)
           [] e.op = "Select" -> e.hasres /\ e.res = SelectRes(seq, e.p, kv)
-          [] e.op = "Map"    -> e.hasres /\ e.res = MapRes(e.cfg, seq, e.mp)
+          \* Map: the abstract result (exact for comparators that tell all elements apart), and in every case the
+          \* content of a fresh REAL container of the same configuration into which the harness inserted the same
+          \* mapped elements one by one in iteration order ("as repeated Add / Put would")
+          [] e.op = "Map"    -> /\ e.hasres /\ e.hasref /\ e.res = e.refres
+                                /\ (e.cfg.cmp # "half" => e.res = MapRes(e.cfg, seq, e.mp))
      /\ e.recv = Content(seq, kv) /\ e.pure = TRUE                      \* the receiver is never modified
      /\ e.hasres => /\ e.recv_after = Content(seq, kv)                  \* ... not even by mutating the result
                     /\ e.res_after[1] = e.res_after[2]                  \* and the result not by mutating the receiver
